@@ -14,6 +14,8 @@ import (
 	"testing"
 	"time"
 
+	clientv3 "go.etcd.io/etcd/client/v3"
+
 	"github.com/gotid/god/lib/discov"
 	"github.com/gotid/god/lib/logx"
 	"verif.local/vk"
@@ -254,11 +256,13 @@ func (g *c15Gen) step(i int) {
 		}
 	default:
 		if !g.hold {
-			switch r.Intn(3) {
+			switch r.Intn(4) {
 			case 0:
 				w.exec(c15Op{Op: "wclose", N: r.Intn(8)})
 			case 1:
 				w.exec(c15Op{Op: "wcancel", N: r.Intn(8)})
+			case 2:
+				w.exec(c15Op{Op: "wcompact", N: r.Intn(8)})
 			default:
 				w.exec(c15Op{Op: "progress"})
 			}
@@ -304,6 +308,9 @@ func c15RunRandom(t *testing.T, m *vk.M, salt string, n int, trigger bool) {
 		if w.incon {
 			return
 		}
+		if idx%5 == 0 {
+			w.etcd.base = 0 // empty etcd reports revision 0: the first watch is created without a start revision
+		}
 		g := newC15Gen(w, r, trigger)
 		nops := 20 + r.Intn(41)
 		for i := 0; i < nops && !w.stopped(); i++ {
@@ -337,7 +344,7 @@ func TestVerifC15Histories(t *testing.T) {
 	m := vk.New(t, "C15", "seeded random histories of put/del (delivered or missed), pump, reload, attach, broken watch stream over 1-2 service keys, 3-7 keys and 2-4 values per key (values shared); "+c15Rule)
 	defer m.Done()
 	defer c15Wall(m, time.Now())
-	c15RunRandom(t, m, "hist", vk.N(2000, 20000), false)
+	c15RunRandom(t, m, "hist", vk.N(1200, 20000), false)
 }
 
 // TestVerifC15Reconnect: the same histories, but the reload is started by the
@@ -420,6 +427,7 @@ func TestVerifC15EndToEnd(t *testing.T) {
 
 type c15Pub struct {
 	p       *discov.Publisher
+	lease   clientv3.LeaseID
 	val     string
 	running bool
 	paused  bool
@@ -457,6 +465,21 @@ func c15EndToEnd(m *vk.M, w *c15World, r *rand.Rand) {
 	for i := 0; i < steps && !w.stopped(); i++ {
 		x := r.Intn(100)
 		switch {
+		case x < 4:
+			// a registration that fails in the etcd client: whatever it left behind (nothing,
+			// or - KeepAlive failing after the Put - a key) is what subscribers must show
+			what := []string{"grant", "put", "keepalive"}[r.Intn(3)]
+			val := values[r.Intn(len(values))]
+			w.ops = append(w.ops, c15Op{Op: "publish-fails-at-" + what, V: val})
+			w.etcd.mu.Lock()
+			w.etcd.failPub = what
+			w.etcd.mu.Unlock()
+			if err := discov.NewPublisher(w.endpoints(), svc, val).KeepAlive(); err == nil {
+				w.inconclusive("injected %s failure did not surface from Publisher.KeepAlive", what)
+				return
+			}
+			absorb()
+			m.Count("publisher_registrations_failed", 1)
 		case x < 30 && len(pubs) < 6:
 			val := values[r.Intn(len(values))]
 			var opts []discov.PubOption
@@ -473,7 +496,7 @@ func c15EndToEnd(m *vk.M, w *c15World, r *rand.Rand) {
 			if !waitLog(before+1, "KeepAlive") {
 				return
 			}
-			pubs = append(pubs, &c15Pub{p: p, val: val, running: true})
+			pubs = append(pubs, &c15Pub{p: p, val: val, running: true, lease: w.etcd.lastLease()})
 			m.Count("publisher_registrations", 1)
 		case x < 50:
 			var cand []*c15Pub
@@ -521,12 +544,38 @@ func c15EndToEnd(m *vk.M, w *c15World, r *rand.Rand) {
 			if !waitLog(before+1, "Pause/Resume") {
 				return
 			}
+			if !p.paused {
+				p.lease = w.etcd.lastLease()
+			}
 			m.Count("publisher_pause_resume", 1)
-		case x < 80:
+		case x < 68:
+			// the lease is lost (keep-alive channel closed): the publisher revokes it and
+			// registers again under a new lease, i.e. under a new key unless it has a fixed id
+			var cand []*c15Pub
+			for _, p := range pubs {
+				if p.running && !p.paused {
+					cand = append(cand, p)
+				}
+			}
+			if len(cand) == 0 {
+				continue
+			}
+			p := cand[r.Intn(len(cand))]
+			before := w.etcd.logLen()
+			w.ops = append(w.ops, c15Op{Op: "lease-lost", V: p.val})
+			if !w.etcd.loseLease(p.lease) {
+				continue
+			}
+			if !waitLog(before+2, "re-registration after lease loss") {
+				return
+			}
+			p.lease = w.etcd.lastLease()
+			m.Count("publisher_lease_losses", 1)
+		case x < 82:
 			if !hold {
 				w.exec(c15Op{Op: "pump", M: r.Intn(3)})
 			}
-		case x < 85:
+		case x < 86:
 			hold = true
 		case x < 93:
 			w.exec(c15Op{Op: "reload"})
